@@ -39,6 +39,10 @@ Lemma tie_lognormal_factor beta g0 :
   = [lnf (log_sigma beta) g0; 1; exp (log_sigma beta * log_sigma beta) - 1; log_sigma beta;
      sqrt (exp (log_sigma beta * log_sigma beta) - 1); 1].
 Proof. autounfold with gen; ops_R; unfold lnf, log_sigma. list_eq deep. Qed.
+(* the same after set_beta: only the last modulation index matters *)
+Lemma tie_lognormal_rebeta beta1 beta g0 :
+  lognormal_rebeta (OO:=ROps) beta1 beta g0 = lognormal_factor (OO:=ROps) beta g0.
+Proof. autounfold with gen; ops_R. list_eq deep. Qed.
 
 Lemma tie_boxcar_w1 d0 d1 d2 d3 d4 d5 d6 d7 d8 d9 d10 d11 d12 :
   boxcar_w1 (OO:=ROps) d0 d1 d2 d3 d4 d5 d6 d7 d8 d9 d10 d11 d12 = map (boxcar_out 1 (seqf [d0; d1; d2; d3; d4; d5; d6; d7; d8; d9; d10; d11; d12])) (seq 0 13) ++ [13].
